@@ -300,6 +300,181 @@ Example C03_session_deferred_writeback_witness :
   end.
 Proof. exact ex_session_unflushed. Qed.
 
+(* ================================================================== the WDupLong link (Spec/WfFold.v, Proofs/DupLongProofs.v):
+   the clause "no two long names of a directory are equal under case folding" follows from the library's OWN existence check.
+   [WfFold.wf_fold upper]: the folding ocaml/judge.ml passes to Wf.wf_issues - String::from_utf16_lossy, then the
+   to_uppercase expansion of every character from the table [upper] dumped from the executor under test (the same table the
+   library model is run with).  [WfFold.fold_agrees upper fold]: on valid UTF-16, [fold us = fold (utf16_encode name)] iff the
+   long-name half of DirEntry::eq_name (Model/Name.v eq_name_lfn) matches [us] against [name]. *)
+From FatVerif Require Import Spec.WfFold Proofs.DupLongProofs Proofs.VolDirFormat.
+
+(* ---- the hypothesis is a theorem for the folding the judge uses, for EVERY table *)
+Theorem C03_fold_agrees_judge : forall upper, fold_agrees upper (wf_fold upper).
+Proof. exact wf_fold_agrees. Qed.
+(* ... and its restriction to valid UTF-16 is necessary: the units [0xD800] are listed and folded as U+FFFD, like the name
+   "\u{FFFD}", but the library's comparison treats a decoding error as "no match" *)
+Theorem C03_fold_agrees_needs_valid_utf16 :
+  exists us name, us <> [] /\ str_valid name = true /\ utf16_okb us = false /\
+    wf_fold upper_ascii us = wf_fold upper_ascii (utf16_encode name) /\ eq_name_lfn upper_ascii us name = false.
+Proof. exact fold_agrees_needs_valid_utf16. Qed.
+(* expanding mappings: with U+00DF -> "SS" the stored name "\u{DF}x" and the looked-up "SSX" fold alike and match; "sx" does not *)
+Example C03_fold_agrees_ex :
+  wf_fold upper_sz [223; 120] = [83; 83; 88] /\ wf_fold upper_sz (utf16_encode [83; 83; 88]) = [83; 83; 88] /\
+  eq_name_lfn upper_sz [223; 120] [83; 83; 88] = true /\ eq_name_lfn upper_sz [223; 120] [115; 120] = false /\
+  utf16_okb [223; 120] = true /\ utf16_okb [55357; 56832] = true /\ utf16_okb [56832] = false.
+Proof. vm_compute. repeat split. Qed.
+
+(* ---- decoder -> library.  Every entry the independent decoder finds WITH a long name is yielded by the library's iterator
+   (Dir::iter, Model/DirSlots.dir_entries) for the same short slot - same raw short name, same end offset - with the SAME
+   long-name units.  No premise on the directory (issues, labels, orphan runs, odd attribute bytes elsewhere). *)
+Theorem C03_decoded_lfn_is_listed : forall fat32 oem ss l es ls iss e,
+  dir_entries oem ss = Ok l -> dir_scan ss 0 [] fat32 = (es, ls, iss) -> In e es -> e_lfn e <> [] ->
+  exists ev, In ev l /\ Lfn.ev_raw_name ev = e_sfn e /\ Lfn.ev_lfn ev = e_lfn e /\ Lfn.ev_end ev = 32 * (e_sfn_slot e + 1).
+Proof. exact decoded_lfn_listed. Qed.
+Example C03_decoded_lfn_is_listed_ex :
+  map e_lfn (fst (fst (dir_scan ex_dir2 0 [] false))) = [ex_name1; [98]] /\
+  (exists l, dir_entries oem_decode_lossy ex_dir2 = Ok l /\ map Lfn.ev_lfn l = [ex_name1; [98]] /\ map Lfn.ev_end l = [96; 160]).
+Proof. split; [vm_compute; reflexivity|]. eexists. split; [vm_compute; reflexivity|]. vm_compute. split; reflexivity. Qed.
+
+(* ---- slot layer.  Dir::check_for_existence answered "no such entry" (Fresh: the caller goes on to write the entry): the
+   folded new name is not among the folded long names the decoder finds, whatever else the directory holds *)
+Theorem C03_fresh_not_among_folded : forall upper oem fold fat32 ss n kind a es ls iss,
+  fold_agrees upper fold -> str_valid n = true ->
+  check_for_existence upper oem ss n kind = Ok (Fresh a) ->
+  dir_scan ss 0 [] fat32 = (es, ls, iss) -> Forall (fun l => utf16_okb l = true) (map e_lfn es) ->
+  ~ In (fold (utf16_encode n))
+       (map fold (filter (fun l => negb (match l with [] => true | _ => false end)) (map e_lfn es))).
+Proof. exact fresh_not_among_folded. Qed.
+Example C03_fresh_not_among_folded_ex :
+  (exists a, check_for_existence upper_ascii oem_decode_lossy ex_dir2 [99] None = Ok (Fresh a)) /\
+  (exists ev, check_for_existence upper_ascii oem_decode_lossy ex_dir2 [66] None = Ok (Exists ev)) /\
+  Forall (fun l => utf16_okb l = true) (map e_lfn (fst (fst (dir_scan ex_dir2 0 [] false)))).
+Proof.
+  split; [eexists; vm_compute; reflexivity|]. split; [eexists; vm_compute; reflexivity|].
+  assert (map e_lfn (fst (fst (dir_scan ex_dir2 0 [] false))) = [ex_name1; [98]]) as -> by (vm_compute; reflexivity).
+  repeat constructor.
+Qed.
+
+(* ---- whole images.  create_file in the root of a well-formed FAT12/16 volume leaves it well formed - the distinctness
+   premise of C03_vol_create_keeps_wf is gone.  [root_lfns_ok im]: the long names stored in the root are valid UTF-16 (no
+   unpaired surrogate; true of everything the library writes, kept by the operation; needed:
+   C03_vol_create_keeps_wf_needs_valid_utf16).  [str_valid name]: the name is a Rust string (scalar values). *)
+Theorem C03_vol_create_keeps_wf_closed : forall fold upper oem im name now range im',
+  fold_agrees upper fold ->
+  fixed_root_geom (parse_geom im) -> Wf.wf_issues fold im = [] ->
+  Forall (fun l => utf16_okb l = true) (map e_lfn (map node_entry (v_root (abs im)))) ->
+  str_valid name = true -> TimeProofs.datetime_valid now = true ->
+  vol_create_empty_file_root upper oem im name now = (Ok (Some range), im') ->
+  Wf.wf_issues fold im' = [] /\
+  Forall (fun l => utf16_okb l = true) (map e_lfn (map node_entry (v_root (abs im')))).
+Proof. exact vol_create_keeps_wf_closed. Qed.
+(* ... for the judge's folding no hypothesis about the folding is left *)
+Theorem C03_vol_create_keeps_wf_judge : forall upper oem im name now range im',
+  fixed_root_geom (parse_geom im) -> Wf.wf_issues (wf_fold upper) im = [] ->
+  Forall (fun l => utf16_okb l = true) (map e_lfn (map node_entry (v_root (abs im)))) ->
+  str_valid name = true -> TimeProofs.datetime_valid now = true ->
+  vol_create_empty_file_root upper oem im name now = (Ok (Some range), im') ->
+  Wf.wf_issues (wf_fold upper) im' = [] /\
+  Forall (fun l => utf16_okb l = true) (map e_lfn (map node_entry (v_root (abs im')))).
+Proof. exact vol_create_keeps_wf_judge. Qed.
+(* ... and ANY sequence of create_file calls, whatever each one answers - a new entry, an existing file opened (Ok None),
+   InvalidInput, a rejected name, a full root -: the volume after the first k calls is well formed, for every k.
+   Duplicates in the list are allowed: the second create of a name finds the first. *)
+Theorem C03_vol_create_many_keeps_wf_closed : forall fold upper oem reqs im k,
+  fold_agrees upper fold ->
+  fixed_root_geom (parse_geom im) -> Wf.wf_issues fold im = [] ->
+  Forall (fun l => utf16_okb l = true) (map e_lfn (map node_entry (v_root (abs im)))) ->
+  Forall (fun q => str_valid (fst q) = true /\ TimeProofs.datetime_valid (snd q) = true) reqs ->
+  parse_geom (vol_create_all upper oem im (firstn k reqs)) = parse_geom im /\
+  Wf.wf_issues fold (vol_create_all upper oem im (firstn k reqs)) = [] /\
+  Forall (fun l => utf16_okb l = true)
+         (map e_lfn (map node_entry (v_root (abs (vol_create_all upper oem im (firstn k reqs)))))).
+Proof. exact vol_create_all_prefix_keeps_wf. Qed.
+(* the example volume: "Ab", "aB" (the same file: opened), "\u{DF}x", "SSX" (the same under the expanding table), "/" (refused),
+   "ab" again: two entries, no issue at any point; the premises hold for the formatted volume *)
+Example C03_vol_create_many_keeps_wf_closed_ex :
+  let reqs := [([65; 98], ex_vol_now); ([97; 66], ex_vol_now); ([223; 120], ex_vol_now); ([83; 83; 88], ex_vol_now);
+               ([47], ex_vol_now); ([97; 98], ex_vol_now)] in
+  Wf.wf_issues (wf_fold upper_sz) ex_vol_im = [] /\ map e_lfn (map node_entry (v_root (abs ex_vol_im))) = [] /\
+  Forall (fun q => str_valid (fst q) = true /\ TimeProofs.datetime_valid (snd q) = true) reqs /\
+  map (fun k => map e_lfn (map node_entry (v_root (abs (vol_create_all upper_sz oem_decode_lossy ex_vol_im (firstn k reqs))))))
+      [1; 2; 3; 6]%nat = [[[65; 98]]; [[65; 98]]; [[65; 98]; [223; 120]]; [[65; 98]; [223; 120]]] /\
+  Wf.wf_issues (wf_fold upper_sz) (vol_create_all upper_sz oem_decode_lossy ex_vol_im reqs) = [] /\
+  fst (vol_create_empty_file_root upper_sz oem_decode_lossy
+         (vol_create_all upper_sz oem_decode_lossy ex_vol_im (firstn 3 reqs)) [83; 83; 88] ex_vol_now) = Ok None.
+Proof.
+  cbv zeta. split; [vm_compute; reflexivity|]. split; [vm_compute; reflexivity|].
+  split; [repeat constructor|]. vm_compute. repeat split.
+Qed.
+(* why [root_lfns_ok] is a premise: a volume without any issue whose one long name is the unpaired surrogate 0xD800 (a foreign
+   writer); create_file("\u{FFFD}") succeeds - the library never matches the undecodable name - and the root then lists two
+   entries as "\u{FFFD}": WDupLong *)
+Theorem C03_vol_create_keeps_wf_needs_valid_utf16 :
+  exists im name now range im',
+    fixed_root_geom (parse_geom im) /\ Wf.wf_issues (wf_fold upper_ascii) im = [] /\
+    str_valid name = true /\ TimeProofs.datetime_valid now = true /\
+    vol_create_empty_file_root upper_ascii oem_decode_lossy im name now = (Ok (Some range), im') /\
+    map e_lfn (map node_entry (v_root (abs im))) = [[55296]] /\
+    ~ Forall (fun l => utf16_okb l = true) (map e_lfn (map node_entry (v_root (abs im)))) /\
+    map e_lfn (map node_entry (v_root (abs im'))) = [[55296]; [65533]] /\
+    Wf.wf_issues (wf_fold upper_ascii) im' = [Wf.WDupLong 0].
+Proof. exact vol_create_keeps_wf_needs_valid_utf16. Qed.
+
+(* ---- rename of a file inside the root, EVERY outcome: the volume stays well formed - no premise about the destination
+   name.  Premises of C01_vol_rename_decodes (attrs_sane, bytes_ok), and: the source is not stored under a dot short name
+   (a root directory has none; the decoder would not follow the chain of such an entry).  A successful rename means the
+   existence check answered Fresh, or "the source itself" AND the scan of the whole directory added by 7e5011a found no
+   other entry matching [dst].  Without that scan the theorem is FALSE - the attempt to prove it produced the failing
+   input D27, reproduced on the real library (C03_vol_rename_respell_ex). *)
+Theorem C03_vol_rename_keeps_wf_closed : forall fold upper oem im src dst r im',
+  fold_agrees upper fold ->
+  fixed_root_geom (parse_geom im) -> Wf.wf_issues fold im = [] ->
+  Forall (fun l => utf16_okb l = true) (map e_lfn (map node_entry (v_root (abs im)))) ->
+  Forall attrs_sane (root_region_slots (parse_geom im) im) -> Forall bytes_ok (root_region_slots (parse_geom im) im) ->
+  str_valid dst = true ->
+  (forall ev, root_lookup upper oem im src = Ok ev ->
+     list_eqb (Lfn.ev_raw_name ev) DOT || list_eqb (Lfn.ev_raw_name ev) DOTDOT = false) ->
+  vol_rename_in_root upper oem im src dst = Some (r, im') ->
+  Wf.wf_issues fold im' = [] /\
+  Forall (fun l => utf16_okb l = true) (map e_lfn (map node_entry (v_root (abs im')))).
+Proof. exact vol_rename_keeps_wf_closed. Qed.
+Theorem C03_vol_rename_keeps_wf_judge : forall upper oem im src dst r im',
+  fixed_root_geom (parse_geom im) -> Wf.wf_issues (wf_fold upper) im = [] ->
+  Forall (fun l => utf16_okb l = true) (map e_lfn (map node_entry (v_root (abs im)))) ->
+  Forall attrs_sane (root_region_slots (parse_geom im) im) -> Forall bytes_ok (root_region_slots (parse_geom im) im) ->
+  str_valid dst = true ->
+  (forall ev, root_lookup upper oem im src = Ok ev ->
+     list_eqb (Lfn.ev_raw_name ev) DOT || list_eqb (Lfn.ev_raw_name ev) DOTDOT = false) ->
+  vol_rename_in_root upper oem im src dst = Some (r, im') ->
+  Wf.wf_issues (wf_fold upper) im' = [] /\
+  Forall (fun l => utf16_okb l = true) (map e_lfn (map node_entry (v_root (abs im')))).
+Proof. exact vol_rename_keeps_wf_judge. Qed.
+(* the D27 situation (U+00DF -> "SS"): create "ab", create "\u{DF}~1" (alias _~1~1), remove "ab", create "s s" (first fit: IN
+   FRONT of "\u{DF}~1"; alias SS~1): no issue, every premise holds.  rename "s s" -> "ss~1": the first match of "ss~1" is
+   the source (through its alias), the entry behind it matches through its long name: AlreadyExists, every byte as before
+   (before 7e5011a: Ok, and two long names with the folding "SS~1").  A destination nobody matches ("t") renames. *)
+Example C03_vol_rename_respell_ex :
+  (fixed_root_geom (parse_geom ex_respell_im) /\ Wf.wf_issues (wf_fold upper_sz) ex_respell_im = [] /\
+   Forall (fun l => utf16_okb l = true) (map e_lfn (map node_entry (v_root (abs ex_respell_im)))) /\
+   Forall attrs_sane (root_region_slots (parse_geom ex_respell_im) ex_respell_im) /\
+   Forall bytes_ok (root_region_slots (parse_geom ex_respell_im) ex_respell_im) /\
+   (forall ev, root_lookup upper_sz oem_decode_lossy ex_respell_im [115; 32; 115] = Ok ev ->
+      list_eqb (Lfn.ev_raw_name ev) DOT || list_eqb (Lfn.ev_raw_name ev) DOTDOT = false) /\
+   map e_lfn (map node_entry (v_root (abs ex_respell_im))) = [[115; 32; 115]; [223; 126; 49]]) /\
+  map e_sfn (map node_entry (v_root (abs ex_respell_im))) =
+    [[83; 83; 126; 49; 32; 32; 32; 32; 32; 32; 32]; [95; 126; 49; 126; 49; 32; 32; 32; 32; 32; 32]] /\
+  wf_fold upper_sz [223; 126; 49] = wf_fold upper_sz [115; 115; 126; 49] /\
+  match vol_rename_in_root upper_sz oem_decode_lossy ex_respell_im [115; 32; 115] [115; 115; 126; 49] with
+  | Some (r, im') => r = Err EAlreadyExists /\
+                     img_read im' 1536 512 = img_read ex_respell_im 1536 512
+  | None => False
+  end /\
+  match vol_rename_in_root upper_sz oem_decode_lossy ex_respell_im [115; 32; 115] [116] with
+  | Some (r, im') => r = Ok tt /\ map e_lfn (map node_entry (v_root (abs im'))) = [[223; 126; 49]; [116]] /\
+                     Wf.wf_issues (wf_fold upper_sz) im' = []
+  | None => False
+  end.
+Proof. split; [exact ex_respell_premises|]. vm_compute. repeat split. Qed.
 
 Print Assumptions C03_write_frame.
 Print Assumptions C03_write_effect.
@@ -314,3 +489,13 @@ Print Assumptions C03_vol_decode_fixed_root.
 Print Assumptions C03_vol_create_keeps_wf.
 Print Assumptions C03_vol_create_many_keeps_wf.
 Print Assumptions C03_session_deferred_writeback.
+Print Assumptions C03_fold_agrees_judge.
+Print Assumptions C03_fold_agrees_needs_valid_utf16.
+Print Assumptions C03_decoded_lfn_is_listed.
+Print Assumptions C03_fresh_not_among_folded.
+Print Assumptions C03_vol_create_keeps_wf_closed.
+Print Assumptions C03_vol_create_keeps_wf_judge.
+Print Assumptions C03_vol_create_many_keeps_wf_closed.
+Print Assumptions C03_vol_create_keeps_wf_needs_valid_utf16.
+Print Assumptions C03_vol_rename_keeps_wf_closed.
+Print Assumptions C03_vol_rename_keeps_wf_judge.
